@@ -129,6 +129,9 @@ func (g *gen) node(x gx) *Node {
 		}
 		return &Node{Op: nNotify, K: g.r.Range(1, 9)}
 	case 3:
+		if g.r.Chance(2, 5) { // read a stored value, derive bytes from it, edit them in place (storage must not change)
+			return &Node{Op: nEdit, K: g.r.Intn(4), V: g.r.Intn(12)}
+		}
 		return &Node{Op: nIf, K: g.r.Intn(4), Body: g.list(x.sub(3))}
 	case 4:
 		callee := g.r.Intn(numContracts)
@@ -282,6 +285,9 @@ func treeStats(o *hx.Out, l []*Node, depth int, maxDepth *int, nodes *int) {
 			if n.Rep > 1 {
 				o.Count("node:notify-bulk")
 			}
+		case nEdit:
+			o.Count("node:edit-derived-value")
+			o.Count(fmt.Sprintf("edit-variant:%d", n.V))
 		case nIf:
 			o.Count("node:ifp")
 			treeStats(o, n.Body, depth+1, maxDepth, nodes)
